@@ -12,7 +12,7 @@ import json, os, time, shutil
 import vlib
 
 SPEC = os.path.join(vlib.VERIF, "spec")
-DCFG = "SPECIFICATION Spec\nCONSTANTS\n  MaxOff = %d\n  FixDiscardForeign = TRUE\nINVARIANTS TypeOK C16_FollowerIsCopy C16_Contiguous C16_NoHandoverToForeign\nCHECK_DEADLOCK FALSE\n"
+DCFG = "SPECIFICATION Spec\nCONSTANTS\n  MaxOff = %d\n  FixDiscardForeign = TRUE\n  ReaderEndsAtReset = %s\nINVARIANTS TypeOK C16_FollowerIsCopy C16_Contiguous C16_NoHandoverToForeign\nCHECK_DEADLOCK FALSE\n"
 
 
 def check(prop, tier, seed, replay):
@@ -26,8 +26,12 @@ def check(prop, tier, seed, replay):
 
 def _check(prop, tier, seed, replay, work, t0):
     drv = vlib.build_driver("replicadrv", work)
-    r = vlib.tlc([os.path.join(SPEC, "Replica.tla")], "Replica", DCFG % (3 if tier == "quick" else 4), work, timeout=3000, name="ReplicaD")
+    r = vlib.tlc([os.path.join(SPEC, "Replica.tla")], "Replica", DCFG % (3 if tier == "quick" else 4, "TRUE"), work, timeout=3000, name="ReplicaD")
     vlib.tlc_ok(r, "Replica.tla")
+    # control: the design in which a reader opened on the old history falls through into the new one is refuted
+    rc_ = vlib.tlc([os.path.join(SPEC, "Replica.tla")], "Replica", DCFG % (3, "FALSE"), work, timeout=3000, name="ReplicaCtl")
+    if "C16_FollowerIsCopy" not in rc_["invariant_violated"]:
+        raise vlib.HarnessError("Replica.tla with ReaderEndsAtReset = FALSE: C16_FollowerIsCopy was expected to be refuted (vacuity control)")
     states, trans = r["distinct"], r["generated"]
     shards = vlib.NCPU
     n = 640 if tier == "quick" else 6400
